@@ -45,6 +45,17 @@ def run(tier, seed):
                 o["split"] = {s_: ({"p": "kappa"} if v in ("333/1000", "499/1000") else v) for s_, v in o["split"].items()}
                 kappa_val = "333/1000" if len(o["split"]) == 3 else "499/1000"
                 break
+        same_val = None
+        for o in p["ops"]:
+            if o["op"] == "strat" and len(o["strata"]) >= 2 and g.rng.random() < 0.5:
+                cands = [c_ for c_ in p["inf"] if c_ in o["comps"]]
+                if cands:
+                    # different parameters, equal values: the literal twin carries the same number twice
+                    o["iadj"] = dict(o.get("iadj") or {})
+                    o["iadj"][cands[0]] = {s_: ({"mul": {"p": "beta"}} if k_ == 0 else ({"mul": {"p": "gamma"}} if k_ == 1 else None))
+                                           for k_, s_ in enumerate(o["strata"])}
+                    same_val = g.rng.choice(["1/2", "3/4", "1/4"])
+                    break
         zeta = False
         rnames = [o["name"] for o in p["ops"] if o["op"] == "req"]
         if rnames and not any(o["op"] == "whitelist" for o in p["ops"]) and g.rng.random() < 0.5:
@@ -64,6 +75,8 @@ def run(tier, seed):
             pv["zeta"] = g.rng.choice(["3/4", "1/4", "5/2"])
         if kappa_val is not None:
             pv["kappa"] = kappa_val
+        if same_val is not None:
+            pv["beta"] = pv["gamma"] = same_val
         adj_params = sorted({a_[k_]["p"] for o in p["ops"] if o["op"] == "strat" for e_ in o.get("fadj", []) for a_ in e_[1].values()
                              if a_ is not None for k_ in a_ if isinstance(a_[k_], dict) and "p" in a_[k_]} - ({"kappa"} if kappa_val else set()))
         if adj_params and g.rng.random() < 0.5:
